@@ -406,6 +406,31 @@ def lift_term(ctx, cfg, fr, term):
     return term
 
 
+def _slice_callees(b, fd, ops, limit=400):
+    """last path segments of every callee in the backward def-use slice of the operands (within the body)"""
+    seen, names = set(), set()
+    st = [o['pl']['l'] for o in ops if o['k'] in ('copy', 'move')]
+    while st and len(seen) < limit:
+        l = st.pop()
+        if l in seen:
+            continue
+        seen.add(l)
+        for kind, bi, x in fd.defs.get(l, []):
+            if kind == 'assign':
+                rv = x['rv']
+                for o in [rv.get('op'), rv.get('a'), rv.get('b')] + list(rv.get('ops') or []):
+                    if isinstance(o, dict) and o.get('k') in ('copy', 'move'):
+                        st.append(o['pl']['l'])
+                if rv.get('pl'):
+                    st.append(rv['pl']['l'])
+            elif kind == 'call':
+                names.add((x.get('callee') or '').split('::')[-1])
+                for o in x['args']:
+                    if o.get('k') in ('copy', 'move'):
+                        st.append(o['pl']['l'])
+    return names
+
+
 def rule_key_generation(ctx, cfg='prod-all'):
     from flow import walk
     prog, eng, ga = ctx.prog(cfg), ctx.eng(cfg), ctx.gates(cfg)
@@ -498,11 +523,32 @@ def rule_key_generation(ctx, cfg='prod-all'):
             if t['k'] == 'switch':
                 for g2 in ga._flatten(classify_switch(eng, fd, x)):
                     gates.append(g2.what or '')
-    has_gt = any('Ordering' in w or 'PartialEq' in w or 'cmp' in w for w in gates)
-    cmp_calls = [t for bi, t in b.calls() if (t.get('callee') or '').endswith('Ord::cmp')]
-    gcd_calls = [t for bi, t in b.calls() if (t.get('callee') or '').split('::')[-1] in ('gcd', 'gcd_ref', 'gcd_mut', 'gcd_u')]
-    yield Ob('RF-Q', '%s#exit-condition' % RQ, len(cmp_calls) >= 2 and len(gcd_calls) >= 1 and has_gt, 'the loop is left only with qr > 1 and gcd(qr, n) == 1', b.span,
-             fact={'cmp_calls': len(cmp_calls), 'gcd_calls': len(gcd_calls)}, expected='2 comparisons, 1 gcd')
+    has_gt = any('Ordering' in w or 'PartialEq' in w or 'PartialOrd' in w or 'cmp' in w for w in gates)
+    CMP = ('Ord::cmp', 'PartialOrd::partial_cmp', 'PartialOrd::gt', 'PartialOrd::ge', 'PartialOrd::lt', 'PartialOrd::le', 'PartialEq::eq', 'PartialEq::ne')
+    GCD = ('gcd', 'gcd_ref', 'gcd_mut', 'gcd_u')
+    in_loop = set()
+    for h, blocks in b.natural_loops():
+        in_loop |= set(blocks)
+    qr_tests, gcd_tests = [], []
+    for bi, t in b.calls():
+        cal = t.get('callee') or ''
+        if bi not in in_loop or not cal.endswith(CMP):
+            continue
+        at = set()
+        for a in t['args']:
+            at |= fd.read_op(a)
+        names = _slice_callees(b, fd, t['args'])
+        if ('c', '1') not in at:
+            continue
+        if names & set(GCD):
+            gcd_tests.append(cal.split('::')[-1])
+        elif any(nm.startswith('secure_pow_mod') or nm.startswith('pow_mod') for nm in names):
+            qr_tests.append(cal.split('::')[-1])
+    gcd_calls = [t for bi, t in b.calls() if (t.get('callee') or '').split('::')[-1] in GCD]
+    yield Ob('RF-Q', '%s#exit-condition' % RQ, len(qr_tests) >= 1 and len(gcd_tests) >= 1 and len(gcd_calls) >= 1 and has_gt,
+             'the loop is left only with qr > 1 and gcd(qr, n) == 1', b.span,
+             fact={'candidate_compared_with_1': qr_tests, 'gcd_compared_with_1': gcd_tests, 'gcd_calls': len(gcd_calls)},
+             expected='one comparison of the candidate with 1, one of gcd(candidate, n) with 1, both deciding the loop exit')
     # provenance of b, c, h, a_i, g_i
     kg = prog.bodies[KG]
     fdk = eng.fndep(KG)
